@@ -68,7 +68,8 @@ func Generate(fams string, seed int64, n int, t *testing.T) []*Scenario {
 
 // timing picks a valid (H, TTL) pair.
 func timing(r rng) (int64, int64) {
-	h := r.pick(100*ms, 200*ms, 400*ms, 1000*ms, 2000*ms)
+	// now and then an interval long enough that H/2 exceeds the fixed time-outs of the library (1 s, 2 s)
+	h := r.pick(100*ms, 100*ms, 200*ms, 200*ms, 400*ms, 400*ms, 1000*ms, 1000*ms, 2000*ms, 2000*ms, 5000*ms)
 	ttl := h * r.pick(3, 3, 4, 6)
 	return h, ttl
 }
@@ -82,6 +83,7 @@ func base(r rng, ninst int, h, ttl int64) *Scenario {
 	q := h/4 - 1
 	sc.Latency = [2]int64{0, r.pick(0, q/8, q/2, q)}
 	sc.WatchDelay = [2]int64{0, r.pick(0, h/4, h, 2*h)}
+	sc.Yield = r.chance(0.5)
 	return sc
 }
 
@@ -273,6 +275,29 @@ func genG3(r rng, n int, t *testing.T) []*Scenario {
 	var out []*Scenario
 	for k := 0; k < n; k++ {
 		h, ttl := timing(r)
+		if r.chance(0.2) {
+			// a left-over acquisition attempt that succeeds under the instance's own running term: the instance follows a
+			// foreign record; the record is removed (watch-triggered round, its Create is served late); the periodic check
+			// starts a second round that wins; the winner's record is removed as well; the late Create then succeeds
+			h, ttl = 2*sec, 6*sec
+			sc := base(r, 1, h, ttl)
+			sc.Env = []string{"tamper"}
+			sc.Latency = [2]int64{ms, 3 * ms}
+			sc.Instances[0].Promote = r.pick2("block", "sleepctx")
+			sc.Instances[0].PromoteNs = r.between(2*sec, 6*sec)
+			sc.Instances[0].Script = []Action{{After: r.between(5*ms, 20*ms), Do: "start"}}
+			t1 := r.between(50*ms, 150*ms)
+			d := r.between(900*ms, 1500*ms)
+			sc.Rules = append(sc.Rules, Rule{Inst: "n1", Kind: "create", Nth: []int{1}, Pre: d, Post: ms})
+			sc.Actions = append(sc.Actions,
+				Action{At: ms, Do: "ext_put", Key: "g", Str: `{"id":"other","token":"tok-x","priority":0}`},
+				Action{At: t1, Do: "ext_del", Key: "g"},
+				Action{At: t1 + d - r.between(20*ms, 150*ms), Do: "ext_del", Key: "g"})
+			sc.Until = 6 * sec
+			sc.Grid = h / 2
+			out = append(out, sc)
+			continue
+		}
 		sc := base(r, int(r.between(1, 3)), h, ttl)
 		sc.Env = []string{"tamper"}
 		startAll(sc, r, h)
@@ -501,6 +526,24 @@ func genG7(r rng, n int, t *testing.T) []*Scenario {
 		h := r.pick(200*ms, 400*ms, 1000*ms)
 		ttl := h * r.pick(3, 4)
 		ninst := int(r.between(1, 3))
+		if r.chance(0.12) {
+			// a stop call that lands inside a demotion (or the other way round): the leader's record is replaced, the owner
+			// calls ValidateTokenOrDemote (or the refresh fails), and the stop is made from the call-out that reports the failure
+			sc := base(r, ninst, 10*h, 30*h)
+			sc.Env = []string{"stoppoint", "tamper"}
+			sc.Yield = true
+			sc.Latency = [2]int64{ms, 2 * ms}
+			startAll(sc, r, h)
+			t1 := r.between(3*h, 5*h)
+			sc.Actions = append(sc.Actions,
+				Action{At: t1, Do: "ext_put", Key: "g", Str: `{"id":"other","token":"tok-x","priority":0}`},
+				Action{At: t1 + r.between(ms, 2*h), Do: "validate_or_demote", I: "n1"},
+				Action{On: r.pick2("log:17", "log:38", "ldur", "flag:0", "trans:3"), I: "n1", Do: r.pick2("stop", "stop_ctx"), SyncNs: r.pick(0, 0, 1)})
+			sc.Until = t1 + 12*h
+			sc.Grid = h
+			out = append(out, sc)
+			continue
+		}
 		sc := base(r, ninst, h, ttl)
 		sc.Env = []string{"stoppoint"}
 		q := h/4 - 1
@@ -572,6 +615,20 @@ func genG7(r rng, n int, t *testing.T) []*Scenario {
 			stop := Action{At: at, Do: "stop", I: id}
 			if r.chance(0.65) {
 				stop = Action{At: at, Do: "stop_ctx", I: id, Delete: r.chance(0.6), Wait: r.chance(0.5), Timeout: r.pick(0, 0, h/2, 10*h), CtxNs: r.pick(0, 0, h/4, 20*h)}
+			}
+			if r.chance(0.3) {
+				// a stop point relative to an observation of the victim instead of a time: the call is made from inside the
+				// library's call-out (state transition, leadership gauge, log line of a decision), and the call-out
+				// does not return before the call has got as far as it can
+				stop.At = 0
+				stop.On = r.pick2("flag:1", "trans:2", "log:6", "log:7", "log:8", "flag:0", "trans:3", "log:10", "log:2")
+				stop.OnNth = r.Intn(2)
+				if r.chance(0.7) {
+					stop.SyncNs = 1
+				}
+				if r.chance(0.2) {
+					stop.Do, stop.CtxNs = "validate_or_demote", 0
+				}
 			}
 			if r.chance(0.3) {
 				stop.Then = &Action{After: r.pick(0, 1, h/2, 6*sec), Do: r.pick2("stop", "stop_ctx", "start")}
